@@ -1,137 +1,367 @@
 """Translator: re-extracts the declarative tables of /repo's current working tree
-into coq/theories/Gen/*.v on every run. A pattern that no longer matches is
-reported as a broken translator obligation (the caller turns it into a
-violation with `no-failing-input-found` unless a failing input is found)."""
+into coq/theories/Gen/Tables.v on every run.
+
+Front end: the crate as rustc sees it — `cargo +nightly rustc -- -Zunpretty=expanded`
+(comments gone, macros expanded, canonical layout), so that re-layouts, comments,
+macro re-arrangements and helper macros in the source do not disturb the reading.
+When the expansion is unavailable the raw source (comments stripped) is read with
+the same recognisers.  A table that cannot be *understood* is reported as a broken
+translator obligation; it is never guessed (the caller turns it into a violation
+with `no-failing-input-found` unless a failing input is found)."""
+import hashlib
 import os
 import re
+import subprocess
 
 import vlib
-
-SRC = os.path.join(vlib.REPO, "jmespath", "src")
 
 TOKENS = ["Identifier", "QuotedIdentifier", "Number", "Literal", "Dot", "Star", "Flatten", "And", "Or", "Pipe",
           "Filter", "Lbracket", "Rbracket", "Comma", "Colon", "Not", "Ne", "Eq", "Gt", "Gte", "Lt", "Lte", "At",
           "Ampersand", "Lparen", "Rparen", "Lbrace", "Rbrace", "Eof"]
 
-ARG_ATOMS = {"any": "TyAny", "null": "TyNull", "string": "TyString", "bool": "TyBool", "number": "TyNumber",
-             "object": "TyObject", "expref": "TyExpref", "array": "TyArray",
-             "array_number": "(TyTypedArray TyNumber)", "array_string": "(TyTypedArray TyString)"}
+ARG_ATOMS = {"Any": "TyAny", "Null": "TyNull", "String": "TyString", "Bool": "TyBool", "Number": "TyNumber",
+             "Object": "TyObject", "Expref": "TyExpref", "Array": "TyArray"}
 
 
 def coq_str(s):
     return "[" + ";".join(str(ord(c)) for c in s) + "]"
 
 
-def read(name):
-    return open(os.path.join(SRC, name)).read()
+def src_dir():
+    return os.path.join(vlib.REPO, "jmespath", "src")
 
 
-def parse_arg(text):
-    parts = [p.strip() for p in text.split("|")]
-    if len(parts) == 1:
-        return ARG_ATOMS[parts[0]]
-    return "(TyUnion [" + "; ".join(ARG_ATOMS[p] for p in parts) + "])"
+def strip_comments(txt):
+    """remove // and /* */ comments, keeping string and char literals intact"""
+    out = []
+    i, n = 0, len(txt)
+    while i < n:
+        c = txt[i]
+        if c == '"':
+            j = i + 1
+            while j < n and txt[j] != '"':
+                j += 2 if txt[j] == "\\" else 1
+            out.append(txt[i:j + 1])
+            i = j + 1
+        elif c == "'" and re.match(r"'(\\.[^']*|[^'\\])'", txt[i:i + 12]):
+            m = re.match(r"'(\\.[^']*|[^'\\])'", txt[i:i + 12])
+            out.append(m.group(0))
+            i += m.end()
+        elif txt.startswith("//", i):
+            j = txt.find("\n", i)
+            i = n if j < 0 else j
+        elif txt.startswith("/*", i):
+            depth, j = 1, i + 2
+            while j < n and depth:
+                if txt.startswith("/*", j):
+                    depth, j = depth + 1, j + 2
+                elif txt.startswith("*/", j):
+                    depth, j = depth - 1, j + 2
+                else:
+                    j += 1
+            i = j
+        else:
+            out.append(c)
+            i += 1
+    return "".join(out)
+
+
+def expanded_source(features=()):
+    """the crate after macro expansion, or None"""
+    src = src_dir()
+    h = hashlib.sha256()
+    for fn in sorted(os.listdir(src)):
+        if fn.endswith(".rs"):
+            h.update(fn.encode())
+            h.update(open(os.path.join(src, fn), "rb").read())
+    h.update(open(os.path.join(vlib.REPO, "jmespath", "Cargo.toml"), "rb").read())
+    h.update(",".join(features).encode())
+    cache = os.path.join(vlib.CACHE, "expand")
+    os.makedirs(cache, exist_ok=True)
+    path = os.path.join(cache, h.hexdigest()[:24] + ".rs")
+    if os.path.exists(path):
+        return open(path).read()
+    cmd = ["cargo", "+nightly", "rustc", "--offline", "--lib"]
+    if features:
+        cmd += ["--features", ",".join(features)]
+    cmd += ["--", "-Zunpretty=expanded"]
+    env = dict(os.environ, CARGO_NET_OFFLINE="true", CARGO_TARGET_DIR=os.path.join(vlib.CACHE, "expand_target"))
+    try:
+        p = subprocess.run(cmd, cwd=os.path.join(vlib.REPO, "jmespath"), env=env, stdout=subprocess.PIPE, stderr=subprocess.PIPE, text=True, timeout=900)
+    except Exception:
+        return None
+    if p.returncode != 0 or "fn register_builtin_functions" not in p.stdout:
+        return None
+    with open(path, "w") as f:
+        f.write(p.stdout)
+    return p.stdout
+
+
+def balanced(txt, i, open_c, close_c):
+    """txt[i] == open_c; returns the index just after the matching close (string literals skipped)"""
+    depth, j, n = 0, i, len(txt)
+    while j < n:
+        c = txt[j]
+        if c == '"':
+            j += 1
+            while j < n and txt[j] != '"':
+                j += 2 if txt[j] == "\\" else 1
+        elif c == open_c:
+            depth += 1
+        elif c == close_c:
+            depth -= 1
+            if depth == 0:
+                return j + 1
+        j += 1
+    return -1
+
+
+def fn_body(txt, header_regex):
+    """body (between the braces) of the first item whose header matches, or None"""
+    m = re.search(header_regex, txt)
+    if not m:
+        return None
+    i = txt.find("{", m.end() - 1)
+    if i < 0:
+        return None
+    j = balanced(txt, i, "{", "}")
+    return txt[i + 1:j - 1] if j > 0 else None
+
+
+# ---- a tiny expression reader for `Signature::new(<inputs>, <variadic>)` after expansion
+def parse_expr(s, i):
+    n = len(s)
+    while i < n and s[i].isspace():
+        i += 1
+    if i < n and s[i] == "[":
+        items, i = parse_items(s, i + 1, "]")
+        return ("list", items), i
+    j = i
+    depth = 0
+    while j < n and (depth > 0 or s[j] not in "()[],"):
+        if s[j] == "<":
+            depth += 1
+        elif s[j] == ">":
+            depth -= 1
+        elif s[j] == "[" and depth > 0:
+            k = s.index("]", j)
+            j = k
+        j += 1
+    head = re.sub(r"#\[[^\]]*\]", "", s[i:j]).strip()
+    if j < n and s[j] == "(":
+        args, j = parse_items(s, j + 1, ")")
+        return ("call", head, args), j
+    return ("atom", head), j
+
+
+def parse_items(s, i, close):
+    items = []
+    n = len(s)
+    while True:
+        while i < n and s[i].isspace():
+            i += 1
+        if i < n and s[i] == close:
+            return items, i + 1
+        e, i = parse_expr(s, i)
+        items.append(e)
+        while i < n and s[i].isspace():
+            i += 1
+        if i < n and s[i] == ",":
+            i += 1
+        elif i < n and s[i] == close:
+            return items, i + 1
+        else:
+            raise ValueError("unexpected %r at %d" % (s[i:i + 20], i))
+
+
+def interp_type(e):
+    """expression tree -> Coq argtype text | ('list', [...]) | None"""
+    kind = e[0]
+    if kind == "list":
+        return ("list", [interp_type(x) for x in e[1]])
+    head = e[1]
+    last = head.split("::")[-1].strip()
+    if "ArgumentType" in head:
+        if kind == "atom":
+            return ARG_ATOMS[last]
+        if last == "TypedArray":
+            return "(TyTypedArray %s)" % interp_type(e[2][0])
+        if last == "Union":
+            inner = interp_type(e[2][0])
+            assert isinstance(inner, tuple)
+            return "(TyUnion [" + "; ".join(inner[1]) + "])"
+        raise KeyError(head)
+    if kind == "atom":
+        if last == "None":
+            return "None"
+        raise KeyError(head)
+    if last == "Some":
+        return "(Some %s)" % interp_type(e[2][0])
+    # wrappers (Box::new, vec! internals, into_vec, ...): the payload is the last argument that means something
+    for a in reversed(e[2]):
+        try:
+            r = interp_type(a)
+        except KeyError:
+            continue
+        if r is not None and r != "None":
+            return r
+    raise KeyError(head)
+
+
+def read_signatures(txt, broken):
+    sigs = {}
+    for m in re.finditer(r"Signature::new\s*\(", txt):
+        end = balanced(txt, m.end() - 1, "(", ")")
+        if end < 0:
+            continue
+        # the struct being constructed: `Name { signature: Signature::new(`
+        pre = txt[max(0, m.start() - 200):m.start()]
+        mm = re.findall(r"(\w+)\s*\{\s*signature\s*:\s*$", pre)
+        if not mm:
+            continue
+        name = mm[-1]
+        if "$" in txt[m.start() - 40:end]:
+            continue            # the macro definition itself
+        try:
+            args, _ = parse_items(txt, m.end(), ")")
+            if len(args) != 2:
+                raise ValueError("Signature::new with %d arguments" % len(args))
+            inputs = interp_type(args[0])
+            var = interp_type(args[1])
+            if not isinstance(inputs, tuple):
+                raise ValueError("inputs are not a list")
+            sigs[name] = "mkSig [" + "; ".join(inputs[1]) + "] " + var
+        except (KeyError, ValueError, AssertionError, IndexError) as ex:
+            broken.append("functions.rs: signature of %s not understood (%s)" % (name, ex))
+    return sigs
+
+
+def expand_source_macros(fns):
+    """raw-source fallback: rewrite defn!/arg! invocations into the expanded shape"""
+    def arg(m):
+        parts = [p.strip() for p in m.group(1).split("|")]
+        names = {"any": "Any", "null": "Null", "string": "String", "bool": "Bool", "number": "Number", "object": "Object", "expref": "Expref",
+                 "array": "Array", "array_number": "TypedArray(Box::new(ArgumentType::Number))", "array_string": "TypedArray(Box::new(ArgumentType::String))"}
+        ts = ["ArgumentType::" + names[p] for p in parts]
+        return ts[0] if len(ts) == 1 else "ArgumentType::Union([" + ", ".join(ts) + "])"
+    out = []
+    for m in re.finditer(r"defn!\s*[\(\{]", fns):
+        end = balanced(fns, m.end() - 1, fns[m.end() - 1], ")" if fns[m.end() - 1] == "(" else "}")
+        inner = fns[m.end():end - 1]
+        name, rest = inner.split(",", 1)
+        rest = re.sub(r"arg!\s*\(([^()]*)\)", arg, rest)
+        rest = re.sub(r"vec!\s*\[", "[", rest)
+        out.append("%s { signature: Signature::new(%s)" % (name.strip(), rest.strip().rstrip(",")))
+    return "\n".join(out)
 
 
 def run():
     broken = []
+    notes = []
     out = ["(* GENERATED by tools/translate.py from /repo/jmespath/src — do not edit *)",
            "From JP Require Import Base Sig.", ""]
+    src = src_dir()
+    raw = {fn: strip_comments(open(os.path.join(src, fn)).read()) for fn in sorted(os.listdir(src)) if fn.endswith(".rs")}
+    exp = expanded_source()
+    if exp is None:
+        notes.append("macro expansion unavailable: reading the raw source")
+        whole = "\n".join(raw.values())
+        sig_txt = expand_source_macros(raw.get("functions.rs", ""))
+    else:
+        whole = exp
+        sig_txt = exp
 
-    # ---- binding powers (lexer.rs, Token::lbp) and PROJECTION_STOP (parser.rs)
-    lex = read("lexer.rs")
-    m = re.search(r"pub fn lbp\(&self\) -> usize \{\s*match \*self \{(.*?)\}\s*\}", lex, re.S)
+    # ---- binding powers (Token::lbp) and the projection-stop threshold as it is used
+    body = fn_body(whole, r"fn\s+lbp\s*\(\s*&self\s*\)\s*->\s*usize\s*\{")
     lbp = {}
-    if not m:
+    default = None
+    if body is None:
         broken.append("lexer.rs: Token::lbp not found")
     else:
-        default = None
-        for arm in re.finditer(r"([A-Za-z_| ]+?)\s*=>\s*(\d+)\s*,", m.group(1)):
-            names = [n.strip() for n in arm.group(1).split("|")]
-            for n in names:
+        mb = re.search(r"match\s+\*?self\s*\{", body)
+        arms = body[mb.end():] if mb else body
+        for arm in re.finditer(r"((?:[A-Za-z_:]+\s*\|\s*)*[A-Za-z_:]+)\s*(?:\([^)]*\))?\s*=>\s*(\d+)\s*,?", arms):
+            for n in arm.group(1).split("|"):
+                n = n.strip().split("::")[-1]
                 if n == "_":
                     default = int(arm.group(2))
                 elif n in TOKENS:
                     lbp[n] = int(arm.group(2))
                 else:
                     broken.append("lexer.rs: unknown token %r in lbp" % n)
-        if default is None:
+        if default is None and len(lbp) < len(TOKENS):
             broken.append("lexer.rs: lbp has no default arm")
-            default = 0
+        if not lbp:
+            broken.append("lexer.rs: no binding powers read")
         for t in TOKENS:
-            lbp.setdefault(t, default)
-    par = read("parser.rs")
-    m = re.search(r"const PROJECTION_STOP: usize = (\d+);", par)
-    stop = int(m.group(1)) if m else None
+            lbp.setdefault(t, default or 0)
+    # threshold: `t.lbp() < C` (or `<=`, or mirrored), C a constant of parser.rs
+    stop = None
+    consts = {m.group(1): int(m.group(2)) for m in re.finditer(r"const\s+(\w+)\s*:\s*usize\s*=\s*(\d+)\s*;", whole)}
+    prhs = fn_body(whole, r"fn\s+projection_rhs\s*\(")
+    if prhs is None:
+        broken.append("parser.rs: projection_rhs not found")
+    else:
+        cands = []
+        for m in re.finditer(r"\.lbp\(\)\s*(<=|<)\s*(\w+)", prhs):
+            cands.append((m.group(1), m.group(2)))
+        for m in re.finditer(r"(\w+)\s*(>=|>)\s*\w+\.lbp\(\)", prhs):
+            cands.append(({">": "<", ">=": "<="}[m.group(2)], m.group(1)))
+        vals = set()
+        for op, c in cands:
+            v = consts.get(c, int(c) if c.isdigit() else None)
+            if v is not None:
+                vals.add(v if op == "<" else v + 1)
+        if len(vals) == 1:
+            stop = vals.pop()
+        else:
+            broken.append("parser.rs: projection-stop comparison not understood (%s)" % cands)
     if stop is None:
-        broken.append("parser.rs: PROJECTION_STOP not found")
-        stop = 0
+        stop = consts.get("PROJECTION_STOP", 0)
     out.append("Inductive tk := " + " | ".join("K" + t for t in TOKENS) + ".")
     out.append("Definition gen_lbp (t : tk) : Z :=\n  match t with\n" +
                "\n".join("  | K%s => %d" % (t, lbp.get(t, 0)) for t in TOKENS) + "\n  end.")
+    out.append("(* the threshold T of the stop test [lbp < T] of projection_rhs *)")
     out.append("Definition gen_projection_stop : Z := %d." % stop)
-    # binding powers passed to expr()/projection_rhs() by the parser, as written in parser.rs
-    uses = {
-        "expr_amp": r"t @ Token::Ampersand => \{\s*let rhs = self\.expr\(t\.lbp\(\)\)",
-        "expr_not": r"t @ Token::Not => Ok\(Ast::Not \{\s*node: Box::new\(self\.expr\(t\.lbp\(\)\)\?\)",
-        "expr_or": r"t @ Token::Or => \{\s*let offset = offset;\s*let rhs = self\.expr\(t\.lbp\(\)\)",
-        "expr_and": r"t @ Token::And => \{\s*let offset = offset;\s*let rhs = self\.expr\(t\.lbp\(\)\)",
-        "expr_pipe": r"t @ Token::Pipe => \{\s*let offset = offset;\s*let rhs = self\.expr\(t\.lbp\(\)\)",
-        "dot_rhs": r"t @ Token::Dot => \{.*?let rhs = self\.parse_dot\(t\.lbp\(\)\)",
-        "cmp_rhs": r"fn parse_comparator.*?self\.expr\(Token::Eq\.lbp\(\)\)",
-        "filter_rhs": r"fn parse_filter.*?self\.projection_rhs\(Token::Filter\.lbp\(\)\)",
-        "flatten_rhs": r"fn parse_flatten.*?self\.projection_rhs\(Token::Flatten\.lbp\(\)\)",
-        "wildcard_index_rhs": r"fn parse_wildcard_index.*?self\.projection_rhs\(Token::Star\.lbp\(\)\)",
-        "wildcard_values_rhs": r"fn parse_wildcard_values.*?self\.projection_rhs\(Token::Star\.lbp\(\)\)",
-        "slice_rhs": r"fn parse_index.*?rhs: Box::new\(self\.projection_rhs\(Token::Star\.lbp\(\)\)\?\)",
-        "loop_cond": r"while rbp < self\.peek\(0\)\.lbp\(\)",
-        "stop_cond": r"t if t\.lbp\(\) < PROJECTION_STOP =>",
-    }
-    for name, pat in uses.items():
-        if not re.search(pat, par, re.S):
-            broken.append("parser.rs: binding-power use %s not recognised" % name)
     out.append("")
 
-    # ---- signatures (functions.rs, defn!) and registrations (runtime.rs)
-    fns = read("functions.rs")
-    sigs = {}
-    for m in re.finditer(r"defn!\(\s*(\w+),\s*vec!\[(.*?)\],\s*(None|Some\(arg!\((.*?)\)\))\s*\);", fns, re.S):
-        name = m.group(1)
-        try:
-            inputs = [parse_arg(a) for a in re.findall(r"arg!\((.*?)\)", m.group(2), re.S)]
-            var = "None" if m.group(3) == "None" else "(Some %s)" % parse_arg(m.group(4))
-            sigs[name] = "mkSig [" + "; ".join(inputs) + "] " + var
-        except KeyError as e:
-            broken.append("functions.rs: unknown argument type %s in %s" % (e, name))
-    rt = read("runtime.rs")
-    regs = re.findall(r'self\.register_function\("(\w+)",\s*Box::new\((\w+)::new\(\)\)\);', rt)
-    if len(regs) == 0:
-        broken.append("runtime.rs: no builtin registrations found")
+    # ---- signatures (every `X { signature: Signature::new(..) }`) and registrations
+    sigs = read_signatures(sig_txt, broken)
+    reg_body = fn_body(whole, r"fn\s+register_builtin_functions\s*\(")
+    regs = []
+    if reg_body is None:
+        broken.append("runtime.rs: register_builtin_functions not found")
+    else:
+        regs = re.findall(r'"(\w+)"\s*,\s*(?:Box::new\s*\(\s*)?(\w+)::new\s*\(\s*\)', reg_body)
+        n_calls = len(re.findall(r'"\w+"', reg_body))
+        if len(regs) == 0:
+            broken.append("runtime.rs: no builtin registrations found")
+        elif n_calls != len(regs):
+            broken.append("runtime.rs: %d string literals but %d registrations understood" % (n_calls, len(regs)))
     out.append("(* registration order of register_builtin_functions: (name, implementing struct, signature of that struct) *)")
     rows = []
     for nm, st in regs:
         if st not in sigs:
-            broken.append("functions.rs: no defn! for %s" % st)
+            broken.append("functions.rs: no signature read for %s" % st)
             continue
         rows.append("  (%s, %s, %s)" % (coq_str(nm), coq_str(st), sigs[st]))
     out.append("Definition gen_registry : list (str * str * signature) := [\n" + ";\n".join(rows) + "\n].")
     out.append("")
 
-    # ---- source facts (lib.rs, functions.rs, Cargo.toml) for C16
-    lib = read("lib.rs")
+    # ---- source facts (lib.rs, functions.rs) for C16
+    lib = raw.get("lib.rs", "")
+    fns = raw.get("functions.rs", "")
+    allraw = "\n".join(raw.values())
     facts = {
-        "rcvar_rc_without_sync": bool(re.search(r'#\[cfg\(not\(feature = "sync"\)\)\]\s*pub type Rcvar = std::rc::Rc<Variable>;', lib)),
-        "rcvar_arc_with_sync": bool(re.search(r'#\[cfg\(feature = "sync"\)\]\s*pub type Rcvar = std::sync::Arc<Variable>;', lib)),
-        "function_requires_send_sync": bool(re.search(r"pub trait Function\s*:\s*(Sync \+ Send|Send \+ Sync)\s*\{", fns)),
-        "default_runtime_lazy_static": bool(re.search(r"lazy_static!\s*\{\s*pub static ref DEFAULT_RUNTIME: Runtime = \{\s*let mut runtime = Runtime::new\(\);\s*runtime\.register_builtin_functions\(\);\s*runtime\s*\};\s*\}", lib)),
+        "rcvar_rc_without_sync": bool(re.search(r'#\[cfg\(not\(feature\s*=\s*"sync"\)\)\]\s*pub\s+type\s+Rcvar\s*=\s*(?:std::rc::)?Rc<Variable>\s*;', lib)),
+        "rcvar_arc_with_sync": bool(re.search(r'#\[cfg\(feature\s*=\s*"sync"\)\]\s*pub\s+type\s+Rcvar\s*=\s*(?:std::sync::)?Arc<Variable>\s*;', lib)),
+        "function_requires_send_sync": bool(re.search(r"pub\s+trait\s+Function\s*:\s*(Sync\s*\+\s*Send|Send\s*\+\s*Sync)\s*\{", allraw)),
+        # a lazily initialised immutable static of type Runtime (what the initialiser registers is decided by behaviour: C06/C15)
+        "default_runtime_lazy_static": bool(re.search(r"lazy_static!\s*\{[^{}]*pub\s+static\s+ref\s+DEFAULT_RUNTIME\s*:\s*Runtime\s*=", lib)),
     }
     sites = {"interior_mutability": [], "unsafe": [], "static_mut": [], "rc_outside_alias": []}
-    for fn in sorted(os.listdir(SRC)):
-        if not fn.endswith(".rs"):
-            continue
-        txt = open(os.path.join(SRC, fn)).read()
+    for fn, txt in raw.items():
         code = txt.split("#[cfg(test)]")[0]
-        code = re.sub(r"//[^\n]*", "", code)
         for i, line in enumerate(code.splitlines(), 1):
             if re.search(r"\b(RefCell|Cell|UnsafeCell|Mutex|RwLock|AtomicU\w+|AtomicI\w+|AtomicBool|AtomicPtr|OnceCell|thread_local)\b", line):
                 sites["interior_mutability"].append("%s:%d" % (fn, i))
@@ -139,7 +369,7 @@ def run():
                 sites["unsafe"].append("%s:%d" % (fn, i))
             if re.search(r"\bstatic\s+mut\b", line):
                 sites["static_mut"].append("%s:%d" % (fn, i))
-            if re.search(r"\bRc\b", line) and "pub type Rcvar = std::rc::Rc<Variable>;" not in line and not line.strip().startswith("///"):
+            if re.search(r"\bRc\b", line) and not re.search(r"pub\s+type\s+Rcvar\s*=\s*(?:std::rc::)?Rc<Variable>\s*;", line):
                 sites["rc_outside_alias"].append("%s:%d" % (fn, i))
     for k, v in facts.items():
         out.append("Definition gen_%s : bool := %s." % (k, "true" if v else "false"))
@@ -147,8 +377,11 @@ def run():
         out.append("Definition gen_%s_sites : Z := %d.  (* %s *)" % (k, len(v), ", ".join(v)[:200].replace("*)", "")))
     out.append("")
     vlib.write_if_changed(os.path.join(vlib.COQ, "theories", "Gen", "Tables.v"), "\n".join(out) + "\n")
+    run.notes = notes
     return broken
 
 
+run.notes = []
+
 if __name__ == "__main__":
-    print(run())
+    print(run(), run.notes)
